@@ -5,17 +5,21 @@ pub mod common;
 pub mod c16;
 pub mod c19;
 pub mod run;
+pub mod c01;
 pub mod c03;
 pub mod c10;
 pub mod parse;
+pub mod c04;
 pub mod c12;
 
 pub fn dispatch(ctx: &mut Ctx) {
     match ctx.prop.as_str() {
         "RUN" => run::generic(ctx),
+        "C01" => c01::check(ctx),
         "C03" => c03::check(ctx),
         "C10" => c10::check(ctx),
         "PARSE" => parse::check(ctx),
+        "C04" => c04::check(ctx),
         "C12" => c12::check(ctx),
         "C16" => c16::check(ctx),
         "C19" => c19::check(ctx),
